@@ -68,14 +68,15 @@ Definition children_rel (t : itree) : list nd := map (fun ik => ([fst ik], snd i
 Definition children (n : nd) : list nd := map (rebase (fst n)) (children_rel (snd n)).
 
 (* descendants in document (pre-)order, positions relative to t *)
+Definition desc_list (f : itree -> list nd) : nat -> list itree -> list nd :=
+  fix go (i : nat) (l : list itree) : list nd :=
+    match l with
+    | [] => []
+    | k :: r => ([i], k) :: map (under i) (f k) ++ go (S i) r
+    end.
 Fixpoint desc_rel (t : itree) : list nd :=
   match t with
-  | INode _ (PTag _ _ _) kids =>
-      (fix go (i : nat) (l : list itree) : list nd :=
-         match l with
-         | [] => []
-         | k :: r => ([i], k) :: map (under i) (desc_rel k) ++ go (S i) r
-         end) 0 kids
+  | INode _ (PTag _ _ _) kids => desc_list desc_rel 0 kids
   | _ => []
   end.
 Definition descendants (n : nd) : list nd := map (rebase (fst n)) (desc_rel (snd n)).
